@@ -162,6 +162,26 @@ class FlatIter:
         return self
 
 
+class RowMajor:
+    """the row-major buffer of a table with a known number of columns, as an indexable sequence
+    (pointers into the table -- &table(i, j) -- are iterators into it)"""
+
+    def __init__(self, table):
+        self.table = table
+
+    def __deepcopy__(self, memo):
+        return self
+
+    def __len__(self):
+        return GRID_SIZE * self.table.ncols
+
+    def __getitem__(self, k):
+        return self.table.get(divmod(k, self.table.ncols))
+
+    def __setitem__(self, k, v):
+        self.table[divmod(k, self.table.ncols)] = v
+
+
 class ColView:
     def __init__(self, table, col):
         self.table = table
@@ -259,6 +279,8 @@ class RouterWorld(World):
         for x in (a, b):
             if isinstance(x, Sym) and x.kind in ("stale", "exp"):
                 return None     # a value left by a previous call / the runtime exponent: any outcome
+        if any(isinstance(x, Sym) and x.kind == "dropdist" for x in (a, b)):
+            return self.cmp_products(op, a, b)
         kinds = {x.kind for x in (a, b) if isinstance(x, Sym)}
         if kinds <= {"elev"} or kinds <= {"slope"} or kinds <= {"drop"}:
             ra, rb = self.rep(a), self.rep(b)
@@ -274,9 +296,78 @@ class RouterWorld(World):
                 return {"==": a.tag == b.tag, "!=": a.tag != b.tag}.get(op, None)
         raise AnalysisBroken("router model: un-whitelisted comparison %r %s %r" % (a, op, b))
 
+    def slope_of_drop(self, tag):
+        src, dst = tag
+        if tag == ("p", "pn"):
+            return PREV_SLOPE
+        if src != "c":
+            raise AnalysisBroken("router model: drop %r" % (tag,))
+        return self.sc.nbs[int(dst[1:])].slope_rep()
+
+    def cmp_products(self, op, a, b):
+        """drop_a * dist_b  <op>  drop_b * dist_a  (slopes compared by cross-multiplication).  In real
+        arithmetic this is slope_a <op> slope_b; in floating point both products may overflow to +inf
+        (huge finite elevations) or underflow to 0 (subnormal drops) although the two slopes are
+        finite and different: a strict comparison is then false whatever the slopes, a non-strict
+        one true.  Both outcomes are explored where they differ."""
+        def parts(x):
+            if isinstance(x, Sym) and x.kind == "dropdist":
+                return x.tag
+            if isinstance(x, (int, float)) and not isinstance(x, bool) and x == 0:
+                return None
+            raise AnalysisBroken("router model: product of a drop and a distance compared with %r" % (x,))
+        pa, pb = parts(a), parts(b)
+        if op not in ("<", "<=", ">", ">="):
+            raise AnalysisBroken("router model: products compared with %s" % op)
+
+        def val(p):
+            """(slope representative, exact?) of one side"""
+            if p is None:
+                return 0.0, True
+            d, f = p
+            if d[0] == "const":
+                return None, False
+            exact = f[0] == "const" and f[1] == 1.0          # x * 1.0 is x
+            return self.slope_of_drop(d), exact
+        (sa, ea), (sb, eb) = val(pa), val(pb)
+        if sa is None or sb is None:
+            raise AnalysisBroken("router model: constant times a distance in a slope comparison")
+        if pa is not None and pb is not None:
+            # cross-multiplication: each side pairs a drop with the OTHER side's distance
+            def dist_of(p):
+                return p[1]
+
+            def own_dist(p):
+                d = p[0]
+                return ("dist", "pn") if d == ("p", "pn") else ("dist", d[1])
+            if not (dist_of(pa) == own_dist(pb) or dist_of(pa)[0] == "const") or \
+                    not (dist_of(pb) == own_dist(pa) or dist_of(pb)[0] == "const"):
+                raise AnalysisBroken("router model: products %r and %r are not a cross-multiplication" % (pa, pb))
+        if sa == 0.0 and pa is not None:
+            sa = DBL_MIN / 4      # (a strictly positive drop: its product is not the literal 0)
+        if sb == 0.0 and pb is not None:
+            sb = DBL_MIN / 4
+        math_ = {"<": sa < sb, "<=": sa <= sb, ">": sa > sb, ">=": sa >= sb}[op]
+        if (ea or pa is None) and (eb or pb is None):
+            return math_
+        degenerate = op in ("<=", ">=")       # inf <op> inf, 0 <op> 0
+        if math_ == degenerate:
+            return math_
+        return None         # fork: the exact outcome and the overflow / underflow outcome
+
     def sym_binop(self, op, a, b):
         ak = a.kind if isinstance(a, Sym) else None
         bk = b.kind if isinstance(b, Sym) else None
+        if op == "*" and {ak, bk} == {"drop", "dist"}:
+            d, f = (a, b) if ak == "drop" else (b, a)
+            return Sym("dropdist", (d.tag, ("dist", f.tag)), None)
+        if op == "*" and "drop" in (ak, bk) and any(isinstance(x, (int, float)) and not isinstance(x, bool) and x > 0
+                                                    for x in (a, b)):
+            d, c = (a, b) if ak == "drop" else (b, a)
+            return Sym("dropdist", (d.tag, ("const", float(c))), None)
+        if op == "*" and "dist" in (ak, bk) and any(isinstance(x, (int, float)) and not isinstance(x, bool) and x == 0
+                                                    for x in (a, b)):
+            return 0.0
         if op == "-" and ak == "elev" and bk == "elev":
             # sign lemma: sign(a - b) = order(a, b), exact under gradual underflow
             return Sym("drop", (a.tag, b.tag), a.data - b.data)
@@ -463,6 +554,16 @@ class RouterWorld(World):
             return None
         if name == "threads_count":
             return NOT_HANDLED
+        return NOT_HANDLED
+
+    def address_of(self, it, ref):
+        from ..interp import Iter
+        if isinstance(ref, ElemRef) and isinstance(ref.c, Table) and ref.c.ncols and isinstance(ref.k, tuple) \
+                and len(ref.k) == 2 and all(isinstance(x, int) for x in ref.k):
+            rm = getattr(ref.c, "_rowmajor", None)
+            if rm is None:
+                rm = ref.c._rowmajor = RowMajor(ref.c)
+            return Iter(rm, ref.k[0] * ref.c.ncols + ref.k[1], 1)
         return NOT_HANDLED
 
     def external(self, it, fn, call, frame):
